@@ -172,8 +172,9 @@ class InjectionTracker:
 
         new_id = effective_id
         for packet_id in reversed(self.injections):
+            # Injections newer than this ID don't shift it, but older ones further down still do
             if packet_id > new_id:
-                break
+                continue
             new_id -= 1
         new_id -= self._injection_base
         if effective_id != new_id:
